@@ -241,6 +241,9 @@ func buildShape(sh abs.IntMap) *astisub.Subtitles {
 	case 3:
 		st = &astisub.Style{ID: "s", InlineStyle: &astisub.StyleAttributes{SSAFontName: "f", WebVTTStyles: []string{"x"}}, Style: &astisub.Style{ID: "parent-not-in-map"}}
 		s.Styles = map[string]*astisub.Style{"s": st}
+	case 4:
+		st = &astisub.Style{ID: "s", InlineStyle: &astisub.StyleAttributes{SSAFontName: "f"}}
+		s.Styles = map[string]*astisub.Style{"s": st, "absent": nil}
 	}
 	var rg *astisub.Region
 	switch sh["regions"] {
@@ -252,6 +255,9 @@ func buildShape(sh abs.IntMap) *astisub.Subtitles {
 	case 3:
 		rg = &astisub.Region{ID: "r", InlineStyle: &astisub.StyleAttributes{WebVTTLines: 2}, Style: st}
 		s.Regions = map[string]*astisub.Region{"key-differs-from-id": rg}
+	case 4:
+		rg = &astisub.Region{ID: "r", InlineStyle: &astisub.StyleAttributes{WebVTTLines: 2}}
+		s.Regions = map[string]*astisub.Region{"r": rg, "absent": nil}
 	}
 	it := &astisub.Item{StartAt: time.Second, EndAt: 2 * time.Second}
 	if sh["iinl"] == 1 {
@@ -377,6 +383,9 @@ func cmdTotality(args []string) error {
 				}
 				// transformations on the same shapes (they are part of the public surface and must not panic either)
 				for _, op := range []string{"optimize", "removestyling", "merge", "unfragment", "fragment", "forceduration"} {
+					if c.Shape["styles"] == 4 || c.Shape["regions"] == 4 {
+						break // a nil entry in a map: the statement speaks of the writers, the operations' own statements of definitions
+					}
 					s := buildShape(c.Shape)
 					res, msg := run.Guard(10*time.Second, func() {
 						switch op {
